@@ -1916,6 +1916,50 @@ class Mutator:
         site.seq.a[0].insert(site.idx, f)
         return Mutant('elem_long_double', self.p, bad, 'callMismatch', site.path, "%s as %s, form %d" % (b, a, form))
 
+    # -- known acceptances of the tree (corpus/tc_known), as mutators: KNOWN-FINDING while accepted
+    def slice_assign_let(self):
+        """an element of a `let` array assigned through a slice of it"""
+        ok = lambda v: isinstance(v.ty, tuple) and v.ty[0] == 'arr' and v.cst == 'const' and v.kind in ('let', 'param') and \
+            norm_v(v.ty[1]) == 'v' and isinstance(v.ty[2], str)
+        site = self.pick_site(lambda s: any(ok(v) for sc in s.env for v in sc.values()))
+        if site is None:
+            return None
+        vs = self.visible_at(site, ok)
+        if not vs:
+            return None
+        x, v = self.rng.choice(vs)
+        z = lambda: N('i', '0', ty='int')
+        sl = N('slice', N('id', x, ty=v.ty, cst=v.cst), [z(), z()], ty=('slc', 1, v.ty[1], v.ty[2]))
+        if self.rng.chance(0.5):
+            bad = N('ass', N('proj', sl, 0, ty=v.ty[2]), self.g.expr(v.ty[2], 0), ty=v.ty[2])
+            site.seq.a[0].insert(site.idx, bad)
+        else:
+            it = self.g.fresh('it')
+            bad = N('ass', N('id', it, ty=v.ty[2]), self.g.expr(v.ty[2], 0), ty=v.ty[2])
+            site.seq.a[0].insert(site.idx, N('forin', it, sl, bad, ty='int'))
+        return Mutant('slice_assign_let', self.p, bad, 'assignConst', site.path, x)
+
+    def pipe_tuple_const_to_var(self):
+        """members of a `let` tuple piped into `var` parameters"""
+        site = self.pick_site()
+        if site is None:
+            return None
+        simple = lambda t: (isinstance(t, str) and t not in ('long', 'double')) or (isinstance(t, tuple) and t[0] in ('rec', 'enum'))
+        xv = self._pipe_target(site, lambda ft: all(simple(pt) for pc, pt in ft[1]) and any(pc == 'v' for pc, pt in ft[1]))
+        if xv is None:
+            return None
+        x, v = xv
+        g = self.g
+        ft = resolved(v.ty)
+        ms = [pt for pc, pt in ft[1]]
+        t = g.fresh('t')
+        tup = N('tuple', [('d', m) for m in ms], [g.expr(m, 0) for m in ms], ty=('tup', tuple(('d', m) for m in ms)))
+        left = N('id', t, ty=tup.ty, cst='const')
+        bad = N('pipe', left, N('id', x, ty=v.ty), [], ty=ft[3])
+        site.seq.a[0].insert(site.idx, N('sup', bad, ty=ft[3]))
+        site.seq.a[0].insert(site.idx, N('let', t, tup))
+        return Mutant('pipe_tuple_const_to_var', self.p, left, 'constToVarParam', site.path, x)
+
     # -- catch
     def unknown_exc(self):
         g, rng = self.g, self.rng
